@@ -74,11 +74,16 @@ class Ctx:
 
     # ------------------------------------------------------------------ helpers
     def expr(self, body):
-        e = self._exprs.get(body.id)
+        e = self._exprs.get(body.cache_id)
         if e is None:
             e = Expr(self.facts, body)
-            self._exprs[body.id] = e
+            self._exprs[body.cache_id] = e
         return e
+
+    def inl(self, body, skip=None):
+        """The body with crate-local plain function calls virtually inlined (DESIGN §3.2)."""
+        from .inline import inlined
+        return inlined(self.facts, body, skip=skip)
 
     def reachable_bodies(self, hand_written=True):
         out = []
@@ -203,11 +208,16 @@ class Ctx:
         vb = self.facts.bodies[info["validate"]]
         return self.region(vb)
 
-    def validate_body(self, name):
+    def validate_body(self, name, inline=False):
+        """The validator's `validate` body; with inline=True its crate-local helpers are virtually
+        inlined, so that rules see the same code whether or not a step was extracted into a function."""
         info = self.validator(name)
         if not info or not info.get("validate"):
             return None
-        return self.facts.bodies[info["validate"]]
+        b = self.facts.bodies[info["validate"]]
+        if inline and not b.coroutine:
+            return self.inl(b)
+        return b
 
 
 # ---------------------------------------------------------------------------------------------
